@@ -131,6 +131,8 @@ const FILES: &[&str] = &[
     "\"sub\\dir\\bg.jpg\"", "", "\"a b.jpeg\"", "x.wmv", "\"mpg\"",
     // names whose length changes under case mapping (Kelvin sign 3 -> 1 byte, dotted capital I 2 -> 3, sharp S)
     "\"\u{212a}\u{212a}.avi\"", "\"\u{130}\u{130}.AVI\"", "\"\u{1e9e}.Mp4\"", "\"\u{212a}.png\"", "\u{212a}\u{212a}\u{212a}",
+    // control characters where an extension letter or digit would be (0x14 | 0x20 == '4', 0x01, 0x7f)
+    "\"clip.mp\u{14}\"", "\"x.m\u{14}v\"", "\"a.\u{1}vi\"", "\"b.fl\u{16}\"", "\"c.mp4\u{7f}\"", "\"d.MP\u{14}\"",
     // a slash directly next to a backslash (the order of "collapse doubled separators" and "standardise" matters)
     "\"sb/\\bg.png\"", "\"a\\/b.jpg\"", "\"a\\\\/b\"", "\"x/\\\\y.png\"", "\"/\\\"",
     // names that are non-empty but blank, or padded
@@ -177,7 +179,7 @@ fn event_line(t: &mut Tape) -> String {
 }
 
 fn colour_line(t: &mut Tape) -> String {
-    let key = *t.pick(&["Combo1", "Combo2", "Combo", "ComboX", "SliderBorder", "SliderTrackOverride", "", "combo1", " Spaced Name ", "Combo 3", "SliderBorder"]);
+    let key = *t.pick(&["Combo1", "Combo2", "Combo", "ComboX", "SliderBorder", "SliderTrackOverride", "", "combo1", " Spaced Name ", "Combo 3", "SliderBorder", "_SliderBorder", "_Combo1", "-x", "#c", "$c"]);
     let v = *t.pick(&[
         "1,2,3", "255,255,255,0", "1,2", "1,2,3,4,5", "256,0,0", "-1,0,0", " 7 , 8 , 9 ", "1,2,3,x", "a,b,c", "+1,2,3", "", "1,2,3,", "0,0,0", "12,34,56,78",
         "1,2,3,4,", "1.5,2,3", "255,254,253",
